@@ -4059,6 +4059,9 @@ rfbSendBell(rfbScreenInfoPtr rfbScreen)
 
     i = rfbGetClientIterator(rfbScreen);
     while((cl=rfbClientIteratorNext(i))) {
+	/* a client still in the handshake must not see normal protocol messages */
+	if (cl->state != RFB_NORMAL)
+	    continue;
 	b.type = rfbBell;
         LOCK(cl->sendMutex);
 	if (rfbWriteExact(cl, (char *)&b, sz_rfbBellMsg) < 0) {
@@ -4087,6 +4090,9 @@ rfbSendServerCutText(rfbScreenInfoPtr rfbScreen,char *str, int len)
 
     iterator = rfbGetClientIterator(rfbScreen);
     while ((cl = rfbClientIteratorNext(iterator)) != NULL) {
+        /* a client still in the handshake must not see normal protocol messages */
+        if (cl->state != RFB_NORMAL)
+            continue;
         sct.type = rfbServerCutText;
         sct.length = Swap32IfLE(len);
         LOCK(cl->sendMutex);
@@ -4119,6 +4125,9 @@ rfbSendServerCutTextUTF8(rfbScreenInfoPtr rfbScreen,char *str, int len, char *fa
 
     iterator = rfbGetClientIterator(rfbScreen);
     while ((cl = rfbClientIteratorNext(iterator)) != NULL) {
+        /* a client still in the handshake must not see normal protocol messages */
+        if (cl->state != RFB_NORMAL)
+            continue;
         sct.type = rfbServerCutText;
         LOCK(cl->sendMutex);
         if (cl->enableExtendedClipboard) {
